@@ -31,18 +31,21 @@ def extra_inputs(ctx):
         st, val = with_watchdog(lambda: Parser().parse(s), 2)
         if st != "ok" or val not in (True, False):
             out.append({"input_hex": s.encode("utf-8", "surrogatepass").hex(), "input": repr(s), "what": "str input: %s %r" % (st, val)})
-    with tempfile.NamedTemporaryFile(dir=WORK, suffix=".sieve", delete=False) as f:
-        f.write(b'require "fileinto";\nfileinto "a";\nfoo;\n')
-        path = f.name
-    try:
-        p = Parser()
-        st, val = with_watchdog(lambda: p.parse_file(path), 2)
-        p2 = Parser()
-        v2 = p2.parse(open(path, "rb").read())
-        if st != "ok" or val != v2 or (val is False and p.error != p2.error):
-            out.append({"input": "parse_file", "what": "parse_file differs from parse of its contents: %r %r" % ((st, val), v2)})
-    finally:
-        os.unlink(path)
+    for content in [b'require "fileinto";\nfileinto "a";\nfoo;\n', b'require "fileinto";\r\nfileinto "a\r\nb";\r\nfoo;\r\n', b'keep "x\ry";\rfoo;\r',
+                    b"", b"# only a comment", b'keep "\xff";', "keep \"é€\";\r\nif true {\r\n stop;\r\n".encode("utf-8"), b"\xef\xbb\xbfkeep;"]:
+        with tempfile.NamedTemporaryFile(dir=WORK, suffix=".sieve", delete=False) as f:
+            f.write(content)
+            path = f.name
+        try:
+            p = Parser()
+            st, val = with_watchdog(lambda: p.parse_file(path), 2)
+            p2 = Parser()
+            v2 = p2.parse(open(path, "rb").read())
+            if st != "ok" or val != v2 or (val is False and (p.error != p2.error or p.error_pos != p2.error_pos)):
+                out.append({"input": "parse_file %r" % content[:40], "what": "parse_file differs from parse of the file's bytes: %r %r vs %r %r" % (
+                    (st, val), getattr(p, "error", None), v2, getattr(p2, "error", None))})
+        finally:
+            os.unlink(path)
     return out
 
 
